@@ -258,7 +258,7 @@ func (m *e2eMsg) flat() map[string]any {
 type e2eFault struct {
 	Dir  string // direction
 	Off  int    // byte offset in that direction's (original) stream
-	Kind string // flip | del | dup | ins | trunc
+	Kind string // flip | del | dup | ins | trunc | linedel | linedup
 	Val  byte   // bit mask for flip / inserted byte
 	done bool
 }
@@ -477,6 +477,16 @@ func (w *e2eWire) applyFaults(dir string, base int, out []byte) []byte {
 			out = append(out[:i+1:i+1], out[i:]...)
 		case "ins":
 			out = append(out[:i:i], append([]byte{f.Val}, out[i:]...)...)
+		case "linedel", "linedup":
+			// the whole line that starts at Off is dropped / delivered twice (a burst of byte faults)
+			if e := bytes.IndexByte(out[i:], '\n'); e >= 0 {
+				line := append([]byte(nil), out[i:i+e+1]...)
+				if f.Kind == "linedel" {
+					out = append(out[:i:i], out[i+e+1:]...)
+				} else {
+					out = append(out[:i:i], append(line, out[i:]...)...)
+				}
+			}
 		}
 	}
 	return out
